@@ -14,7 +14,7 @@ const char *mop_names[MOP_N] = {
     "glyphs",
     "r_init_rects", "r_binop", "r_rectop", "r_copy", "r_inverse", "r_conv", "r_fini",
     "filter_create", "compute_region",
-    "scribble", "alias", "bits_huge", "bits_yuv", "r_from_image", "bits_refused",
+    "scribble", "alias", "bits_huge", "bits_yuv", "r_from_image", "bits_refused", "r_shared_binop",
 };
 
 const pixman_format_code_t sim_formats[] = {
@@ -1435,6 +1435,15 @@ step_region_op (machine_t *m, const sim_op_t *op, const int64_t *a, int n, mstep
     {
 	int dst = (int)sim_mod (A (1), M_NREG), cnt = (int)sim_clamp (A (2), 0, 20);
 	st->region_slot = dst;
+	if (A (2) == 100000)
+	{
+	    /* a count no allocation can serve: the documented way to the broken region without any fault injection */
+	    pixman_box32_t b32 = { 0, 0, 1, 1 };
+	    pixman_box16_t b16 = { 0, 0, 1, 1 };
+	    if (w16) { pixman_region_fini (&m->r16[dst]); st->ret = pixman_region_init_rects (&m->r16[dst], &b16, 0x20000000); }
+	    else { pixman_region32_fini (&m->r32[dst]); st->ret = pixman_region32_init_rects (&m->r32[dst], &b32, 0x20000000); }
+	    return;
+	}
 	if (A (2) > 20)
 	{
 	    /* many boxes from a formula (the arguments would not fit): count = A(2) up to 400,
@@ -1531,6 +1540,30 @@ step_region_op (machine_t *m, const sim_op_t *op, const int64_t *a, int n, mstep
 	else st->ret = pixman_region32_copy_from_region16 (&m->r32[dst], &m->r16[src]);
 	return;
     }
+    case MOP_R_SHARED_BINOP:
+    {
+	/* k, private destination, shared operand, other operand (0-3 shared, 4-7 private), shared operand first or second */
+	int k = (int)sim_mod (A (1), 3), dst = (int)sim_mod (A (2), M_NREG), sh = (int)sim_mod (A (3), M_NREG), oth = (int)sim_mod (A (4), 2 * M_NREG);
+	int second = (int)sim_mod (A (5), 2);
+	machine_t *o = m->shared_regions;
+	if (!o) { st->executed = 0; st->has_status = 0; st->region_written = 0; return; }
+	st->region_slot = dst;
+	if (w16)
+	{
+	    pixman_region16_t *x = &o->r16[sh], *y = oth < M_NREG ? &o->r16[oth] : &m->r16[oth - M_NREG], *t;
+	    if (!o->r16_init[sh] || (oth < M_NREG && !o->r16_init[oth])) { st->executed = 0; st->has_status = 0; st->region_written = 0; return; }
+	    if (second) { t = x; x = y; y = t; }
+	    st->ret = k == 0 ? pixman_region_union (&m->r16[dst], x, y) : k == 1 ? pixman_region_intersect (&m->r16[dst], x, y) : pixman_region_subtract (&m->r16[dst], x, y);
+	}
+	else
+	{
+	    pixman_region32_t *x = &o->r32[sh], *y = oth < M_NREG ? &o->r32[oth] : &m->r32[oth - M_NREG], *t;
+	    if (!o->r32_init[sh] || (oth < M_NREG && !o->r32_init[oth])) { st->executed = 0; st->has_status = 0; st->region_written = 0; return; }
+	    if (second) { t = x; x = y; y = t; }
+	    st->ret = k == 0 ? pixman_region32_union (&m->r32[dst], x, y) : k == 1 ? pixman_region32_intersect (&m->r32[dst], x, y) : pixman_region32_subtract (&m->r32[dst], x, y);
+	}
+	return;
+    }
     case MOP_R_FROM_IMAGE:
     {
 	/* void: its way of reporting failure is to leave the broken region */
@@ -1587,6 +1620,7 @@ step_misc_op (machine_t *m, const sim_op_t *op, const int64_t *a, int n, mstep_t
 							(pixman_kernel_t)rx, (pixman_kernel_t)ry, (pixman_kernel_t)sx, (pixman_kernel_t)sy,
 							(int)sim_clamp (A (6), 0, 3), (int)sim_clamp (A (7), 0, 3));
 	st->ret = p != NULL;
+	if (p) st->aux = fnv_bytes (fnv_u64 (FNV_INIT, (uint64_t)nv), p, (size_t)nv * sizeof (pixman_fixed_t));
 	free (p);           /* the caller owns the table */
 	return;
     }
@@ -1635,7 +1669,7 @@ machine_step (machine_t *m, const sim_op_t *op, int op_index, mstep_t *st)
     if (op->kind <= MOP_SET_DITHER_OFFSET || op->kind == MOP_ALIAS || op->kind == MOP_BITS_HUGE || op->kind == MOP_BITS_YUV || op->kind == MOP_BITS_REFUSED) step_image_op (m, op, a, n, st);
     else if (op->kind <= MOP_COMPOSITE_TRIS || op->kind == MOP_SCRIBBLE) step_draw_op (m, op, a, n, st);
     else if (op->kind <= MOP_GLYPHS) step_glyph_op (m, op, a, n, st);
-    else if (op->kind <= MOP_R_FINI || op->kind == MOP_R_FROM_IMAGE) step_region_op (m, op, a, n, st);
+    else if (op->kind <= MOP_R_FINI || op->kind == MOP_R_FROM_IMAGE || op->kind == MOP_R_SHARED_BINOP) step_region_op (m, op, a, n, st);
     else step_misc_op (m, op, a, n, st);
     sim_alloc_leave ();
     st->n_allocs = sim_alloc.n_allocs;
